@@ -72,7 +72,10 @@ def hCodec : Handler := fun impl => do
     if repr then s!"repr:{sizeBucket m}"
     else if Spec.C07.holdsCodec m mo then "nonrepr:roundtrips-anyway"
     else s!"nonrepr:{(Spec.C07.reasons m mo).headD "mismatch"}"
-  return { model := model, oracle := oracle, cls := if repr then "-" else "C07-a", label := label }
+  -- the known finding C07-a is the loss THE CODE AS MODELLED shows on this input (same decoded metadata, same error):
+  -- a different wrong outcome on a non-representable input is a different violation and is reported with this input
+  let sameLoss := " ".intercalate impl == model
+  return { model := model, oracle := oracle, cls := if repr ∨ !sameLoss then "-" else "C07-a", label := label }
 
 def showErrOrHeader : Res (ErrOr Header) → String
   | .panic _ => "panic"
